@@ -159,6 +159,10 @@ func suiteConc(seed uint64, n int, work string, withMerge bool) {
 							if gr.Chance(1, 6) {
 								return fmt.Errorf("abort") // rolled back: no effect
 							}
+							if gr.Chance(1, 12) {
+								// an entry larger than the segment: Commit must fail, leave no trace and release the lock
+								tx.PutWithTimestamp("m", []byte("big"), make([]byte, seg+1), 0, 1700000000)
+							}
 							return nil
 						}
 						if c.write {
